@@ -407,7 +407,7 @@ fn gen_sr(tier: Tier, f: &mut dyn FnMut(SrCase) -> bool) {
     for cfg in SB_CFGS {
         for b in [1usize, 2, 8] {
             for &n in &ns {
-                if !all_strings(&read_sizes(b), 4, &mut |s| f(SrCase { cfg: cfg.to_string(), b, n, sizes: s.to_vec() })) {
+                if !all_strings(&read_sizes(b), tier.pick(4, 5), &mut |s| f(SrCase { cfg: cfg.to_string(), b, n, sizes: s.to_vec() })) {
                     return;
                 }
             }
@@ -1135,7 +1135,7 @@ pub fn register(reg: &mut Registry) {
     reg.add(fam("RangeWriter", "every (offset 0..=13, len 0..=13) over a 12-byte 0xEE-filled Cursor<Vec> x payload length {0,1,5,12,20} x write chunk {1,3,100}: accepted count, counters, final content", gen_rw, run_rw));
     reg.add(fam(
         "StreamBufferedReader/reads",
-        "source of n bytes (quick n in {0,1,2,3,7,8,9,16,17,40}, thorough 0..=40) read through every sequence of <=4 Read::read sizes from {0,1,2,7,B-1,B,B+1}, then drained; buffer size B in {1,2,8} x 4 configs (read-ahead x2, no read-ahead, bulk bypass at >=B, capacity fixed at B)",
+        "source of n bytes (quick n in {0,1,2,3,7,8,9,16,17,40}, thorough 0..=40) read through every sequence of <=4 (thorough <=5) Read::read sizes from {0,1,2,7,B-1,B,B+1}, then drained; buffer size B in {1,2,8} x 4 configs (read-ahead x2, no read-ahead, bulk bypass at >=B, capacity fixed at B)",
         gen_sr,
         run_sr,
     ));
